@@ -510,6 +510,13 @@ class Engine:
             # boxed booleans are distinguished atoms; None is 0; everything else through an uninterpreted predicate
             return z3.If(v.z == atom("py:True"), z3.BoolVal(True), z3.And(v.z != 0, v.z != atom("py:False"), z3.Function("any_truthy", I, B)(v.z)))
         t = v.ty
+        if t[0] == "dict" and not self.st.bound:
+            ft = self.full_ty(v)
+            if ft[1] is not None:
+                # a dict is empty iff it has no key (ties the size used for truthiness to the domain array)
+                ks = sort_of(ft[1])
+                dom = self.hread("dom." + sort_tag(ks), z3.ArraySort(ks, B), v.z)
+                self.st.pc.append((self.hread("len", I, v.z) == 0) == (dom == z3.K(ks, z3.BoolVal(False))))
         if t[0] in ("list", "dict", "set"):
             return z3.And(v.z != 0, self.len_of(v) != 0)
         if t[0] == "tuple":
@@ -540,6 +547,11 @@ class Engine:
     def coerce(self, v, ty):
         """value as stored under declared type ty (z term of sort_of(ty), none flag)"""
         t = strip_opt(ty) if ty is not None else v.ty
+        if t == "any" and v.ty in ("int", "real", "bool") and v.none is None:
+            # boxing a scalar into the untyped universe (injective uninterpreted embeddings; booleans are the distinguished atoms)
+            if v.ty == "bool":
+                return V("any", z3.If(v.z, atom("py:True"), atom("py:False")))
+            return V("any", z3.Function("any_of_" + v.ty, sort_of(v.ty), I)(v.z))
         if t == "real" and v.ty in ("int", "bool"):
             return V("real", self.to_real(v), v.none)
         if t == "int" and v.ty == "bool":
